@@ -7,11 +7,13 @@ import common
 import dscommon
 
 ID = "C18"
-ANCHORS = ["corankco/utils.py", "corankco/ranking.py", "corankco/dataset.py"]
+ANCHORS = ["corankco/utils.py", "corankco/ranking.py", "corankco/dataset.py", "corankco/consensus.py"]
 RULE = ("kinds: render (ranking over non-negative ints or delimiter-free non-integer strings, rendered in brace / bracket "
         "notation with whitespace padding, a name prefix and any member order -> Ranking.from_string), random (strings over "
         "the format alphabet `[]{},:` + digits, letters, blanks, tabs, newlines, also mutated renderings -> the three parsers, "
-        "under a 2 s alarm), file (dataset written to a fresh file and read back, incl. empty rankings, `%` comment lines); "
+        "under a 2 s alarm), file (dataset written to a fresh file and read back, incl. empty rankings, `%` comment lines, through "
+        "every reader of the API: get_rankings_from_file, Dataset.from_file / get_dataset_from_file / get_datasets_from_folder, "
+        "Consensus.get_consensus_from_file, Ranking.from_file); "
         "compared with the model: value or exception class, rendered text, file content; predicate: round trip gives an equal "
         "ranking / dataset, any other text is parsed or raises ValueError only; non-trivial = >= 2 buckets with a "
         "multi-member bucket and noise, or a random text that parses; distinct by JSON")
@@ -198,12 +200,30 @@ def _impl(case):
                 equal2 = bool(Dataset.from_file(path2) == ds)
             except Exception as exc:  # noqa: BLE001
                 equal2 = "err:" + type(exc).__name__
+            # the other readers of the API: static reader, folder reader, consensus reader, one-ranking file
+            others = {}
+            try:
+                from corankco.consensus import Consensus
+                d1 = Dataset.get_dataset_from_file(path)
+                others["get_dataset_from_file"] = bool(d1 == ds) and d1.name == "data.txt" and ds2.name == "data.txt"
+                os.remove(path2)
+                folder = Dataset.get_datasets_from_folder(d)
+                others["get_datasets_from_folder"] = len(folder) == 1 and bool(folder[0] == ds) and folder[0].name == "data.txt"
+                cons = Consensus.get_consensus_from_file(path)
+                others["get_consensus_from_file"] = bool(Dataset(cons.consensus_rankings) == ds)
+                path3 = os.path.join(d, "one.txt")
+                first = ds.rankings[0]
+                with open(path3, "w", encoding="utf-8") as f:
+                    f.write(str(first))
+                others["Ranking.from_file"] = bool(Ranking.from_file(path3) == first) if len(first) > 0 else True
+            except Exception as exc:  # noqa: BLE001
+                others["err"] = type(exc).__name__ + ":" + str(exc)[:100]
         finally:
             for p in os.listdir(d):
                 os.remove(os.path.join(d, p))
             os.rmdir(d)
         return {"obs": [_enc_buckets(r.buckets) for r in ds.rankings], "content": [ord(c) for c in content], "back": back,
-                "equal": equal, "equal_with_comments": equal2}
+                "equal": equal, "equal_with_comments": equal2, "others": others}
     except Exception as exc:  # noqa: BLE001
         return {"err": "other:" + type(exc).__name__ + ":" + str(exc)[:200]}
 
@@ -264,6 +284,11 @@ def judge(case, out, answers):
         if out["equal"] is not True:
             holds = False
             diff.append("file round trip: read-back dataset equal = %s" % (out["equal"],))
+        if out["equal"] is True:
+            for name, ok in out.get("others", {}).items():
+                if ok is not True:
+                    holds = False
+                    diff.append("file round trip through %s: %s" % (name, ok))
         tags.append("with-comment-and-blank-lines-equal:%s" % out["equal_with_comments"])  # observation only
         if any(len(r) == 0 for r in case["raw"]):
             tags.append("has-empty-ranking")
